@@ -508,6 +508,12 @@ RxConstructF(src, flags, form) ==
     IF k.thr = "SyntaxError" /\ form = "ctor" /\ D("D10_malformed_pattern_typeerror") /\ RxFlags(flags).ok /\ (OScan(src, 1) \/ OErr(src, 1, FALSE))
     THEN [thr |-> "TypeError"] ELSE k
 RxCtx(X, S) == [inp |-> S, ic |-> X.ic, ml |-> X.ml]
+(* 15.10.7.1-5 the instance properties: values of global, ignoreCase, multiline, lastIndex, then      *)
+(* writable / enumerable / configurable of source, global, ignoreCase, multiline (all false) and of   *)
+(* lastIndex (writable only)                                                                          *)
+RxProps(X) ==
+    ArrV(<<BoolV(X.g), BoolV(X.ic), BoolV(X.ml), X.li>>
+         \o [j \in 1..12 |-> BoolV(FALSE)] \o <<BoolV(TRUE), BoolV(FALSE), BoolV(FALSE)>>)
 
 RxSub(S, a, b) == SubSeq(S, a + 1, b)           \* substring [a, b) with 0-based offsets
 RECURSIVE Utf8Len(_)                              \* bytes of the UTF-8 form (BMP, no surrogates generated)
@@ -516,9 +522,12 @@ Utf8Len(s) == IF Len(s) = 0 THEN 0 ELSE (IF s[1] < 128 THEN 1 ELSE IF s[1] < 204
 RxOff(S, e) == IF D("D10_lastindex_byte_offset") THEN Utf8Len(RxSub(S, 0, e)) ELSE e
 RxCapVal(S, c) == IF c[1] = -1 THEN Undef ELSE StrV(RxSub(S, c[1], c[2]))
 (* 15.10.6.2 steps 12-20: the result array, as                               *)
-(* [t |-> "match", index, input, caps |-> <<matched, capture 1, ...>>]       *)
+(* [t |-> "match", index, input, caps |-> <<matched, capture 1, ...>>, attr] *)
+(* attr = [[Writable]], [[Enumerable]], [[Configurable]] of "index" and of   *)
+(* "input" (steps 15-16: all true)                                           *)
+AllTrue6 == <<TRUE, TRUE, TRUE, TRUE, TRUE, TRUE>>
 RxMatchArr(S, f) ==
-    [t |-> "match", index |-> IntV(f.s), input |-> StrV(S),
+    [t |-> "match", index |-> IntV(f.s), input |-> StrV(S), attr |-> AllTrue6,
      caps |-> <<StrV(RxSub(S, f.s, f.e))>> \o [j \in 1..Len(f.cap) |-> RxCapVal(S, f.cap[j])]]
 
 (* the implementation searches the SLICE of the subject that starts at       *)
@@ -548,7 +557,7 @@ RxExecBytes(X, S, b, failed) ==
         idx == IF f.s < nf THEN k + r + f.s ELSE k + (IF r > 0 THEN 1 ELSE 0) + (f.s - nf)
     IN  IF ~f.ok THEN failed
         ELSE [R |-> [X EXCEPT !.li = IntV(bo(f.e))], f |-> f,
-              v |-> [t |-> "match", index |-> IntV(idx), input |-> StrV(S),
+              v |-> [t |-> "match", index |-> IntV(idx), input |-> StrV(S), attr |-> AllTrue6,
                      caps |-> <<StrV(RxSub(Tz, f.s, f.e))>> \o [j \in 1..Len(f.cap) |-> RxCapVal(Tz, f.cap[j])]]]
 
 (* 15.10.6.2 RegExp.prototype.exec: [R |-> the object after, v |-> result, f |-> the match] *)
